@@ -2,7 +2,7 @@
    source on every run), the trace store, inspect, rtl_assert and step_multiple
    (Sim/Trace.v). *)
 From Coq Require Import ZArith List Bool Lia ZifyBool Permutation Sorted.
-From PyRTL Require Import Base.PyZ Sim.TraceBase Sim.Trace Gen.InputGuards.
+From PyRTL Require Import Base.PyZ Sim.TraceBase Sim.Trace Gen.InputGuards Gen.StepOrder.
 Import ListNotations.
 Open Scope Z_scope.
 
@@ -741,3 +741,44 @@ Section StepMultipleTop.
     step_multiple provided expected nsteps stop s = SmError e.
   Proof. intro H. unfold Trace.step_multiple. rewrite H. reflexivity. Qed.
 End StepMultipleTop.
+
+
+(* ================================================================== step order (Gen/StepOrder.v)
+   The event lists regenerated from the source of the three step() implementations mean exactly
+   the hand-written sim_step that every theorem above is about.  `solve_order` evaluates the
+   interpreter on the generated list, so any reordering with the same observable meaning still
+   proves, and any other one (assertions checked before tracing, values stored while validating,
+   tracing before the values are published, ...) does not. *)
+Ltac order_cbn := cbn [exec_events m_st m_val m_tr m_cur m_sim sst sval str failing_assert find].
+Ltac solve_order :=
+  intros; unfold exec_order, Trace.sim_step;
+  repeat match goal with s : sim _ |- _ => destruct s end; order_cbn;
+  repeat (first [ match goal with |- context [if ?c then _ else _] => destruct c end
+                | match goal with |- context [let '(_, _) := ?p in _] => destruct p end ]; order_cbn);
+  repeat (match goal with |- context [match failing_assert ?a ?v with _ => _ end] =>
+                            destruct (failing_assert a v) end; order_cbn);
+  try reflexivity.
+
+Section StepOrder.
+  Variable State : Type.
+  Variable stepf : State -> inputs -> State * (name -> Z).
+  Variable input_widths : list (name * Z).
+  Variable guard : Z -> Z -> bool.
+  Variable asserts : list name.
+
+  Lemma step_order_simulation_ok : forall s ins,
+    exec_order State stepf input_widths guard asserts step_order_simulation s ins
+    = sim_step State stepf input_widths guard asserts s ins.
+  Proof. unfold step_order_simulation. solve_order. Qed.
+
+  Lemma step_order_fast_ok : forall s ins,
+    exec_order State stepf input_widths guard asserts step_order_fast s ins
+    = sim_step State stepf input_widths guard asserts s ins.
+  Proof. unfold step_order_fast. solve_order. Qed.
+
+  (* CompiledSimulation checks no rtl_assert *)
+  Lemma step_order_compiled_ok : forall s ins,
+    exec_order State stepf input_widths guard [] step_order_compiled s ins
+    = sim_step State stepf input_widths guard [] s ins.
+  Proof. unfold step_order_compiled. solve_order. Qed.
+End StepOrder.
